@@ -168,9 +168,18 @@ func runRules(p *Property, tier, tags string, overlay map[string][]byte) (c *Ctx
 		}
 	}()
 	p.Run(c)
+	for _, f := range extraRules[p.ID] {
+		f(c)
+	}
 	c.finish()
 	return c
 }
+
+// extraRules: rules added to a property after its main rule set (kept in separate files, e.g. the ones
+// that came out of the second round of seeded changes).
+var extraRules = map[string][]func(c *Ctx){}
+
+func addRules(id string, f func(c *Ctx)) { extraRules[id] = append(extraRules[id], f) }
 
 func firstLines(s string, n int) string {
 	l := strings.Split(s, "\n")
